@@ -94,7 +94,9 @@ func applyServiceExtends(ctx context.Context, name string, services map[string]a
 		if err != nil {
 			return nil, err
 		}
-		filename = refFilename
+		// the base, and whatever it extends in turn, lives in refFilename: the cycle tracker and the
+		// error messages of the recursion must name that file, not the one the chain started from
+		ctx = context.WithValue(ctx, consts.ComposeFileKey{}, refFilename)
 	} else {
 		_, ok := services[ref]
 		if !ok {
